@@ -281,7 +281,7 @@ EffSteps(qq) == IF qq.alias = "" THEN qq.steps ELSE AliasBody(qq.alias).steps \o
 
 ----------------------------------------------------------------------------
 (* concrete syntax *)
-RECURSIVE PredStr(_), StepsStr(_, _), StepStr(_)
+RECURSIVE PredStr(_), StepsStr(_, _), StepStr(_), Wrap(_, _)
 Lic == "\"${LIC}\""
 StepStr(st) ==
   (IF st.axis = "." THEN "."
@@ -301,9 +301,17 @@ PredStr(pr) ==
     [] pr.k = "truth" -> Lic
     [] pr.k = "lit"   -> "'" \o ValStr(pr.val) \o "'"
     [] pr.k = "path"  -> PathStr(pr.abs, pr.steps)
-    [] pr.k = "not"   -> "!(" \o PredStr(pr.sub[1]) \o ")"
-    [] pr.k = "and"   -> "(" \o PredStr(pr.sub[1]) \o ") && (" \o PredStr(pr.sub[2]) \o ")"
-    [] pr.k = "or"    -> "(" \o PredStr(pr.sub[1]) \o ") || (" \o PredStr(pr.sub[2]) \o ")"
+    [] pr.k = "not"   -> "!" \o Wrap(pr.sub[1], 9)
+    [] pr.k = "and"   -> Wrap(pr.sub[1], 2) \o " && " \o Wrap(pr.sub[2], 3)
+    [] pr.k = "or"    -> Wrap(pr.sub[1], 1) \o " || " \o Wrap(pr.sub[2], 2)
+\* parentheses only where the operator table of the manual requires them
+\* (decreasing precedence: !, the comparisons, &&, ||; the binary operators associate to the left)
+Prec(pr) == CASE pr.k = "not" -> 9
+              [] pr.k = "cmp" /\ pr.form = "op" -> 5
+              [] pr.k = "and" -> 2
+              [] pr.k = "or"  -> 1
+              [] OTHER -> 10
+Wrap(pr, min) == IF Prec(pr) < min THEN "(" \o PredStr(pr) \o ")" ELSE PredStr(pr)
 Render(qq) ==
   IF qq.alias = "" THEN PathStr(qq.abs, qq.steps)
   ELSE qq.alias \o (IF qq.steps = <<>> THEN "" ELSE StepsStr(qq.steps, qq.steps[1].sep))
@@ -357,7 +365,7 @@ AxesFull  == {"", "child", "descendant", "descendant-or-self", "direct-child", "
               "direct-descendant-or-self", "self"}
 AxesMed   == {"", "descendant", "descendant-or-self", "direct-child", "direct-descendant", "self"}
 AxesSmall == {"", "descendant", "direct-child"}
-TestsFull  == {STAR, ASTAR, STARB, R, A, AB, B, ZZ}
+TestsFull  == {STAR, ASTAR, STARB, R, A, AB, ABB, B, ZZ}
 TestsMed   == {STAR, ASTAR, R, AB, B, ZZ}
 TestsSmall == {STAR, ASTAR, R, B}
 Plain(axes, tests, dot) ==
@@ -369,19 +377,22 @@ PlainSmall == Plain(AxesSmall, TestsSmall, FALSE)
 PlainTiny  == {PlainStep("/", "", R), PlainStep("//", "", STAR), PlainStep("/", "descendant", ASTAR),
                PlainStep("/", "", STAR)}
 
-CarriersFull  == {<<"//", "", STAR>>, <<"/", "", STAR>>, <<"/", "", ASTAR>>, <<"/", "descendant-or-self", STAR>>,
-                  <<"/", "direct-descendant", STAR>>, <<"/", "self", STAR>>}
+CarriersFull  == {<<"//", "", STAR>>, <<"/", "", ASTAR>>, <<"/", "descendant-or-self", STAR>>, <<"/", "self", STAR>>}
 CarriersSmall == {<<"//", "", STAR>>, <<"/", "", STAR>>, <<"/", "descendant-or-self", ASTAR>>}
 WithPred(carriers, preds) == {PredStep(c[1], c[2], c[3], p) : c \in carriers, p \in preds}
 
 \* alphabet of step i of a query with l steps whose predicate step is at position ppos
 NotCore == Core \cup {NotP(p) : p \in Core}
 PS_gen  == WithPred({<<"//", "", STAR>>}, NotCore)
-PS_q1   == IF Tier # 0 THEN {} ELSE WithPred({<<"//", "", STAR>>, <<"/", "", STAR>>}, Level2)
+PS_q1   == IF Tier # 0 THEN {} ELSE WithPred({<<"//", "", STAR>>}, Level2) \cup WithPred({<<"/", "", STAR>>}, Atoms)
+                                       \cup WithPred({<<"/", "self", STAR>>, <<"//", "self", STAR>>}, NotCore)
 PS_q22  == WithPred({<<"/", "", STAR>>}, Atoms)
 PS_q21  == WithPred({<<"//", "", ASTAR>>}, NotCore)
 PS_t1   == IF Tier # 1 THEN {} ELSE WithPred(CarriersFull, Level3)
-PS_t2   == IF Tier # 1 THEN {} ELSE WithPred(CarriersSmall, Level2)
+PS_t2   == IF Tier # 1 THEN {} ELSE WithPred({<<"//", "", STAR>>}, Level2) \cup WithPred({<<"/", "descendant-or-self", ASTAR>>}, Atoms)
+\* three-step queries: exact names (so that /x/y/z has short cuts to miss), //, one multi-hop and one direct axis
+Plain3  == {PlainStep("/", "", t) : t \in {STAR, R, A, AB, B}} \cup {PlainStep("//", "", t) : t \in {STAR, B, ASTAR}}
+           \cup {PlainStep("/", "descendant", ASTAR), PlainStep("/", "direct-child", STAR)}
 StepsAt(gid, l, ppos, i) ==
   LET gen == gid >= GenBase IN
   IF i = ppos THEN
@@ -393,15 +404,15 @@ StepsAt(gid, l, ppos, i) ==
         [] l = 2                         -> PS_t2
         [] OTHER                         -> PS_q22)
   ELSE
-     (CASE ppos > 0 -> PlainTiny
+     (CASE ppos > 0 -> IF Tier = 0 /\ ppos = 2 THEN {PlainStep("//", "", STAR), PlainStep("/", "", STAR)} ELSE PlainTiny
+        [] gen      -> IF l = 1 THEN PlainMed ELSE IF i = 1 THEN PlainTiny \cup {PlainStep("/", "direct-child", STAR), PlainStep("//", "", B)} ELSE PlainSmall
         [] l = 1    -> PlainFull
-        [] gen      -> PlainSmall
         [] l = 2    -> IF i = 1 THEN (IF Tier = 0 THEN PlainSmall ELSE PlainMed)
                        ELSE (IF Tier = 0 THEN PlainMed ELSE PlainFull)
-        [] OTHER    -> PlainSmall)
+        [] OTHER    -> Plain3)
 
 \* heads: absolute, relative, alias (aliases and relative heads only for short queries)
-Heads(l, ppos) == IF l <= 1 /\ ppos = 0 THEN {"/", "", "top", "deepb"} ELSE {"/"}
+Heads(gid, l, ppos) == IF l <= 1 /\ ppos = 0 /\ gid < GenBase THEN {"/", "", "top", "deepb"} ELSE {"/"}
 
 Init ==
   /\ g \in GraphIds
@@ -409,7 +420,8 @@ Init ==
   /\ pp \in 0..L
   /\ (g >= GenBase /\ pp > 0 => L = 1)
   /\ (Tier = 0 /\ pp > 0 => L <= 2)
-  /\ \E h \in Heads(L, pp) : q = [alias |-> IF h \in AliasNames THEN h ELSE "", abs |-> h = "/", steps |-> <<>>]
+  /\ (L = 3 => pp \in {0, 3})
+  /\ \E h \in Heads(g, L, pp) : q = [alias |-> IF h \in AliasNames THEN h ELSE "", abs |-> h = "/", steps |-> <<>>]
 
 Append1(s) ==
   /\ (q.abs \/ q.alias # "" \/ q.steps # <<>> \/ s.sep = "/")        \* a relative path cannot begin with //
